@@ -31,7 +31,7 @@ type persState struct {
 	sym   map[uint32]string
 	keys  map[string]refdemon.Keys
 	metas map[string]refdemon.Meta
-	cur   map[string]string // agent symbol -> meta symbol last sent
+	cur   map[string]string        // agent symbol -> meta symbol last sent
 	alt   map[string]refdemon.Keys // key material of a refresh that is in flight
 	req   uint32
 	tr    *Trace
